@@ -41,6 +41,8 @@ package proofsvalidator
 
 //@ func ValidatePreparedProof
 //@   props C08 C07 C09 C11
+//@   ensures [sound.an-accepted-proof-is-good] result && preparedProof != nil && len(preparedProof.Raw()) > 0 ==> ProofGood(preparedProof, targetHeight, targetView, keyManager, committeeMembers)
+//@     | && preparedProof.PreprepareSender().MemberId() == LeaderFn(calcLeaderId, preparedProof.PreprepareBlockRef().View())
 //@   ensures [C11:complete.a-good-proof-is-accepted] preparedProof != nil && len(preparedProof.Raw()) > 0 && ProofGood(preparedProof, targetHeight, targetView, keyManager, committeeMembers)
 //@     | && preparedProof.PreprepareSender().MemberId() == LeaderFn(calcLeaderId, preparedProof.PreprepareBlockRef().View()) ==> result
 //@   requires len(committeeMembers) >= 1 && SumMW(committeeMembers, len(committeeMembers)) < 2^64
